@@ -8,15 +8,26 @@ MANIFEST = {
     "technique": "Coq proof over a hand-written Gallina model of mp4ff fragment building (Create*/Add*/OptimizeTfhdTrun/"
                  "SetTrunDataOffsets/encode layout/AddSampleDefaultValues/GetFullSamples) + differential correspondence "
                  "(extracted OCaml vs the real Go API on op histories) + round-trip search on the implementation",
-    "level_text": "Theorems (coq/c05/C05Theorems.v), for all sample field values, tfhd contents and trex: OptimizeTfhdTrun followed "
-                  "by the trun wire form and AddSampleDefaultValues returns exactly the trun's samples (C05_optimize_resolve), and for "
-                  "every flag word optimisation never changes what the decode side resolves (C05_optimize_preserves_resolve); the "
-                  "pinned text is refuted (stale first-sample-flags, fixed in /repo). The model is tied to /repo on every run by "
-                  "running it (extracted) against the real API; the end-to-end statement (encode -> decode -> GetFullSamples) "
-                  "is explored by a randomized round-trip search on the implementation.",
-    "level_note": "Trusted: Coq kernel, extraction (ExtrOcamlBasic), OCaml/Go glue, generators. Box bodies other than "
-                  "tfhd/tfdt/trun/mdat are opaque sizes; io errors are not modelled; the byte-level composition with the box codecs "
-                  "is explored (search), not proved.",
+    "level_text": "Theorems (coq/c05/C05Theorems.v, all closed under the global context). For ALL sample field values, tfhd contents, flag "
+                  "words and trex: OptimizeTfhdTrun, the trun wire form and AddSampleDefaultValues return exactly the trun's samples "
+                  "(C05_optimize_resolve) and optimisation never changes what the decode side resolves (C05_optimize_preserves_resolve); "
+                  "the pinned text is refuted (C05_optimize_pinned_refuted: stale first-sample-flags, fixed in /repo). For ALL op "
+                  "histories, by induction over the op list: single-track fragments under any of the six add operations keep one "
+                  "traf/one trun holding exactly the accepted samples in order (C05_history_inv_single); multi-track fragments under "
+                  "AddFullSampleToTrack/AddSampleToTrack hold one trun per maximal run of consecutive same-track additions, write-order "
+                  "number = run index, per-track concatenation = samples added to that track in order, unknown ids add nothing "
+                  "(C05_history_inv); mdat = concatenation of the accepted data in op order (C05_history_mdat); metadata-only histories "
+                  "build the same trafs/moof size with lazy size = sum of sizes (C05_lazy_equiv_partial); data offset of single-run "
+                  "fragments = moof size + written mdat header under the int32 guard (C05_offsets_partial). NOT proved, explored only "
+                  "(model correspondence on every data offset + data-offset oracle + encode->decode round-trip search on the real "
+                  "code): data offsets of multi-run fragments, tfdt = first decode time, the byte-level codecs and the end-to-end "
+                  "C05_roundtrip composition.",
+    "level_note": "Trusted: Coq kernel, extraction (ExtrOcamlBasic), OCaml/Go glue, generators. The model is a hand transcription tied to "
+                  "/repo by differential runs on every check (op outcome classes, write-order numbers, tfdt, mdat bookkeeping, flags and "
+                  "defaults after optimisation, all data offsets, sizes, recovered FullSample lists). Box bodies other than "
+                  "tfhd/tfdt/trun/mdat are opaque sizes; io errors are not modelled; sort.Slice is modelled by a stable sort (write-order "
+                  "numbers made by the API are pairwise different). Single-track calls on multi-track fragments and mixed data modes "
+                  "are outside the documented use and only covered by the correspondence.",
 }
 
 HANDLED = ("O", "H")   # case kinds the model driver recomputes
